@@ -111,7 +111,30 @@ def header_words(terms: List[T], ev: T) -> List[int]:
     return sorted(set(out))
 
 
+def _take_over(run, mod_name: str, prop: str, repo, select, rule: str, label: str, why: str, floor: int) -> None:
+    """Obligations of another check that are necessary conditions here as well (judged there, reported here too)."""
+    import importlib
+    from ..model import AnalysisError as _AE
+    other = importlib.import_module(f"vstatic.rules.{mod_name}")
+    probe = Run(prop, run.tier, run.repo_root)
+    probe.is_probe = True           # (a check run for its obligations only: it does not take over from others in turn)
+    try:
+        other.check(repo, probe)
+    except _AE:
+        pass            # the floor below fails if the obligations were not reached
+    n = 0
+    for o in probe.obligations:
+        if select(o):
+            n += 1
+            run.ob(rule, o["module"], o["scope"], f"{label} ({prop}/{o['rule']}): {o['construct']}", o["ok"],
+                   (o.get("what", "") + " - " + why) if not o["ok"] else "", nontrivial=False)
+    run.floor(rule, f"{label}: obligations taken over from {prop}", n, floor)
+
+
 def check(repo: Repo, run: Run) -> None:
+    _take_over(run, "c04", "C04", repo, lambda o: o["rule"] == "K11" and "VFS_LOOKUP" in o["construct"], "R0",
+               "lookup trace", "a reassembled lookup (of any length, the empty path included) then gives no lookup trace "
+               "at all", 1)
     interp = sym.Interp(repo)
     # the path arguments of an enclosing call are assembled from the lookup records INSIDE its window: that every record
     # of the thread (START, continuation, END alike) is appended to every open window is the pairing machine's contract
